@@ -42,10 +42,12 @@ func main() {
 	shard := fs.Int("shard", 0, "shard index (mixed into the PRNG seed)")
 	in := fs.String("in", "", "input case file")
 	out := fs.String("out", "", "output file")
+	epoch := fs.String("epoch", "", "past: substitute clock in the year 2000 (circ family)")
 	_ = fs.Parse(os.Args[3:])
+	hc.SetEpoch(*epoch)
 	switch os.Args[2] {
 	case "gen":
-		f := &hc.File{Family: os.Args[1], Seed: *seed, Tier: *tier, Dist: map[string]int{}}
+		f := &hc.File{Family: os.Args[1], Seed: *seed, Tier: *tier, Dist: map[string]int{}, Extra: map[string]string{"epoch": *epoch}}
 		if *shard == 0 {
 			for _, c := range fam.Corpus(*tier) {
 				c.Kind = "corpus"
@@ -71,6 +73,7 @@ func main() {
 	case "exec":
 		f, err := hc.Load(*in)
 		must(err)
+		hc.SetEpoch(f.Extra["epoch"])
 		f.Dist = map[string]int{}
 		for _, c := range f.Cases {
 			c.Outs, c.Viol, c.Tags, c.Known = nil, nil, nil, nil
@@ -83,6 +86,7 @@ func main() {
 	case "emit":
 		f, err := hc.Load(*in)
 		must(err)
+		hc.SetEpoch(f.Extra["epoch"])
 		w, err := os.Create(*out)
 		must(err)
 		fam.Emit(w, f)
